@@ -132,7 +132,7 @@ Definition gaps_ops_left : list gap_row :=
     ++ row_if "opl-interp-model" op at_ (N.lxor (opl_bits (interp_op_model_left op lty lp)) interp)
     ++ row_if "opl-interp" op at_ (N.ldiff lint interp) end) obs_ops_left.
 
-(* identifier arguments *)
+(* identifier arguments: one row per (function, signature); bit 9 * identifier index + scope index *)
 Definition gaps_idargs : list gap_row :=
   flat_map (fun r => match r with (fn, i, lint, interp) => row_if "idarg-interp" fn (digit i) (N.ldiff lint interp) end) obs_idargs.
 
